@@ -76,6 +76,15 @@ theorem typeArgs_injective (ts₁ ts₂ : Tys) (h₁ : ts₁.ok pathOK = true) (
 
 example : (Tys.cons (.named "m/a".toList "T".toList .nil []) (.cons (.ptr (.basic "int".toList)) .nil)).ok pathOK = true := by decide
 
+/-- **Closure stubs** of covered entities inherit uniqueness: `__llgo_stub.<name>` differs whenever the names differ.
+    (A stub versus a function of a package whose path is literally `__llgo_stub` is NOT covered — known finding.) -/
+theorem stubName_injective_partial (e₁ e₂ : Entity) (h₁ : e₁.ok pathOK = true) (h₂ : e₂.ok pathOK = true)
+    (h : linkName (.stub e₁) = linkName (.stub e₂)) : e₁ = e₂ ∨ e₁.declClash e₂ = true := by
+  have h' : "__llgo_stub.".toList ++ linkNameIn e₁.pkg e₁ = "__llgo_stub.".toList ++ linkNameIn e₂.pkg e₂ := h
+  exact linkName_injective_partial e₁ e₂ h₁ h₂ (List.append_cancel_left h')
+
+example : (Entity.func "m/a".toList "F".toList).ok pathOK = true := by decide
+
 /-! ## consistency across packages -/
 
 /-- **Consistency.** The name of every entity that is not one of go/ssa's package-less synthetic functions
@@ -145,6 +154,8 @@ theorem linkname_binds_declared (t : LinkTable) (cur : Str) (e : Entity) (sym : 
 theorem no_directive_keeps_name (t : LinkTable) (cur : Str) (e : Entity) (h : t.lookup (origName e) = none) :
     symbolIn t cur e = linkNameIn cur e := by
   simp [symbolIn, h]
+
+example : LinkTable.lookup [("m.mystrlen".toList, "C.strlen".toList)] (origName (.func "m".toList "other".toList)) = none := by decide
 
 example : LinkTable.lookup [("m.mystrlen".toList, "C.strlen".toList)] (origName (.func "m".toList "mystrlen".toList))
     = some ("C.".toList ++ "strlen".toList) := by decide
